@@ -1,443 +1,434 @@
-(** C14 — specification and proofs for the rule factory model. *)
-From HV Require Import Base.Prelude C14.Model.
+(** C14 — proofs: the model of the rule factory / rule-set loader / rule
+    execution against the specification of C14/Spec.v. *)
+From HV Require Import Base.Prelude C14.Model C14.Spec.
 
-(** ** Specification vocabulary (transcribed from the property statement) *)
+Ltac splits := repeat match goal with |- _ /\ _ => split end.
 
-(** a step on its own denotes mechanism [m] of kind [k]: the reference is a
-    string naming a known mechanism with an acceptable override, and (except for
-    authenticators, whose `if` is ignored) the condition is absent or valid *)
-Definition denotes (st : step) (k : kind) (m : mech) : Prop :=
-  exists kv id, classify st = Some (k, kv) /\ k_id kv = Some id /\ k_ok kv = true /\
-    s_cfg st <> CfgBad /\
-    match k with
-    | KAuthn => m = {| m_kind := k; m_id := id; m_cond := false |}
-    | _ => exists c, cond_res (s_if st) = Ok c /\ m = {| m_kind := k; m_id := id; m_cond := c |}
-    end.
+Definition of_opt {A} (o : option A) : res A := match o with Some a => Ok a | None => Rejected end.
 
-Definition stage (P : kind -> Prop) (sts : list step) (ms : list mech) : Prop :=
-  Forall2 (fun st m => exists k, P k /\ denotes st k m) sts ms.
-
-Definition is_authn k := k = KAuthn.
-Definition is_mid k := k = KAuthz \/ k = KCtx.
-Definition is_fin k := k = KFin.
-
-(** ** exec_step characterised *)
-
-Lemma create_ok k kv cfg c m :
-  create k kv cfg c = Ok m <->
-  exists id, k_id kv = Some id /\ k_ok kv = true /\ cfg <> CfgBad /\ m = {| m_kind := k; m_id := id; m_cond := c |}.
-Proof.
-  unfold create. destruct (k_id kv) as [id|]; [|split; [discriminate | intros (i & H & _); discriminate]].
-  destruct cfg; destruct (k_ok kv); split; intro H;
-    try discriminate;
-    try (inversion H; subst; eexists; repeat split; congruence);
-    try (destruct H as (i & Hi & Hk & Hc & Hm); try discriminate; try congruence;
-         inversion Hi; subst; reflexivity).
-Qed.
-
-Definition order_ok (p : pipes) (k : kind) : Prop :=
-  match k with
-  | KAuthn => p_h p = [] /\ p_f p = []
-  | KAuthz | KCtx => p_f p = []
-  | _ => True
-  end.
+(** ** Small facts *)
 
 Lemma is_nil_true {A} (l : list A) : is_nil l = true <-> l = [].
 Proof. destruct l; simpl; split; congruence. Qed.
 
-Lemma order_okb_spec p k : order_okb p k = true <-> order_ok p k.
-Proof.
-  destruct k; simpl; rewrite ?andb_true_iff, ?is_nil_true; tauto.
-Qed.
-
-Lemma classify_not_eh st kv : classify st <> Some (KEh, kv).
-Proof.
-  unfold classify. destruct (s_authn st), (s_authz st), (s_ctx st), (s_fin st); congruence.
-Qed.
-
-(** the mechanism a classified step creates, order checks aside *)
-Definition step_mech (st : step) (k : kind) (kv : keyv) : res mech :=
-  match k with
-  | KAuthn => create KAuthn kv (s_cfg st) false
-  | _ => match cond_res (s_if st) with
-         | Ok c => create k kv (s_cfg st) c
-         | Rejected => Rejected | Panic => Panic
-         end
-  end.
-
-Lemma step_mech_denotes st k kv m :
-  classify st = Some (k, kv) -> (step_mech st k kv = Ok m <-> denotes st k m).
-Proof.
-  intros Hcl. unfold denotes, step_mech. split.
-  - intro H. exists kv. destruct k.
-    + apply create_ok in H as (id & Hi & Hok & Hcfg & Hm). exists id. repeat split; assumption.
-    + destruct (cond_res (s_if st)) as [c| |] eqn:Ec; try discriminate.
-      apply create_ok in H as (id & Hi & Hok & Hcfg & Hm). exists id. repeat split; try assumption.
-      exists c; split; [reflexivity | assumption].
-    + destruct (cond_res (s_if st)) as [c| |] eqn:Ec; try discriminate.
-      apply create_ok in H as (id & Hi & Hok & Hcfg & Hm). exists id. repeat split; try assumption.
-      exists c; split; [reflexivity | assumption].
-    + destruct (cond_res (s_if st)) as [c| |] eqn:Ec; try discriminate.
-      apply create_ok in H as (id & Hi & Hok & Hcfg & Hm). exists id. repeat split; try assumption.
-      exists c; split; [reflexivity | assumption].
-    + exfalso. eapply classify_not_eh; eassumption.
-  - intros (kv' & id & Hcl' & Hi & Hok & Hcfg & Hm). rewrite Hcl in Hcl'. inversion Hcl'; subst kv'.
-    destruct k.
-    + subst m. apply create_ok. exists id. repeat split; assumption.
-    + destruct Hm as (c & Hc & Hm). rewrite Hc. apply create_ok. exists id. repeat split; assumption.
-    + destruct Hm as (c & Hc & Hm). rewrite Hc. apply create_ok. exists id. repeat split; assumption.
-    + destruct Hm as (c & Hc & Hm). rewrite Hc. apply create_ok. exists id. repeat split; assumption.
-    + exfalso. eapply classify_not_eh; eassumption.
-Qed.
-
-Lemma exec_step_eq p st :
-  exec_step p st =
-  match classify st with
-  | None => Rejected
-  | Some (k, kv) =>
-    if order_okb p k then
-      match step_mech st k kv with Ok m => Ok (upd p k m) | Rejected => Rejected | Panic => Panic end
-    else Rejected
-  end.
-Proof.
-  unfold exec_step, step_mech, create_handler.
-  destruct (classify st) as [[k kv]|]; [|reflexivity].
-  destruct k; destruct (order_okb p _); simpl; try reflexivity.
-Qed.
-
-Lemma exec_step_ok p st p' :
-  exec_step p st = Ok p' <->
-  exists k m, denotes st k m /\ order_ok p k /\ p' = upd p k m.
-Proof.
-  rewrite exec_step_eq. split.
-  - destruct (classify st) as [[k kv]|] eqn:Hcl; [|discriminate].
-    destruct (order_okb p k) eqn:Ho; [|discriminate].
-    destruct (step_mech st k kv) as [m| |] eqn:Hm; try discriminate.
-    intro H; inversion H; subst. exists k, m. split; [|split].
-    + eapply step_mech_denotes; eassumption.
-    + apply order_okb_spec; assumption.
-    + reflexivity.
-  - intros (k & m & Hd & Ho & Hp).
-    assert (Hd' := Hd). destruct Hd' as (kv & id & Hcl & _).
-    rewrite Hcl. apply order_okb_spec in Ho. rewrite Ho.
-    apply (step_mech_denotes st k kv m Hcl) in Hd. rewrite Hd. subst. reflexivity.
-Qed.
-
-(** ** The accepted language of `execute` lists *)
-
-Definition pipes_app (p : pipes) (ma mm mf : list mech) : pipes :=
-  {| p_a := p_a p ++ ma; p_h := p_h p ++ mm; p_f := p_f p ++ mf |}.
-
-Lemma app_nil_inv {A} (l : list A) x : l ++ [x] <> [].
-Proof. destruct l; discriminate. Qed.
-
-Ltac splits := repeat match goal with |- _ /\ _ => split end.
-
-Ltac stage_tac :=
-  first [ constructor; [eexists; split; [|eassumption]; red; auto | assumption] | constructor ].
-Ltac eq_tac := subst; unfold pipes_app; simpl; rewrite <- ?app_assoc, ?app_nil_r; reflexivity.
-Ltac fin := splits;
-  first [assumption | reflexivity | solve [auto] | solve [stage_tac] | solve [eq_tac]
-        | solve [right; split; assumption] | idtac].
-
-Lemma first_step_ok p st sts a m f ma mm mf :
-  st :: sts = a ++ m ++ f ->
-  stage is_authn a ma -> stage is_mid m mm -> stage is_fin f mf ->
-  (a = [] \/ (p_h p = [] /\ p_f p = [])) -> (m = [] \/ p_f p = []) ->
-  exists p1, exec_step p st = Ok p1.
-Proof.
-  intros Hs Ha Hm Hf Hoa Hom.
-  destruct a as [|st' a]; [destruct m as [|st' m]; [destruct f as [|st' f]; [discriminate|]|]|];
-    simpl in Hs; inversion Hs; subst st' sts.
-  - inversion Hf as [|? y ? ? (k' & Hk' & Hd') Hf']; subst. red in Hk'; subst k'.
-    eexists. apply exec_step_ok. exists KFin, y. split; [assumption|]. split; [exact I | reflexivity].
-  - inversion Hm as [|? y ? ? (k' & Hk' & Hd') Hm']; subst.
-    destruct Hom as [Hc|Hpf]; [discriminate|].
-    eexists. apply exec_step_ok. exists k', y. split; [assumption|]. split; [|reflexivity].
-    destruct Hk' as [->| ->]; exact Hpf.
-  - inversion Ha as [|? y ? ? (k' & Hk' & Hd') Ha']; subst. red in Hk'; subst k'.
-    destruct Hoa as [Hc|Hpp]; [discriminate|].
-    eexists. apply exec_step_ok. exists KAuthn, y. split; [assumption|]. split; [exact Hpp | reflexivity].
-Qed.
-
-Lemma exec_pipeline_lang p sts p' :
-  exec_pipeline p sts = Ok p' <->
-  exists a m f ma mm mf,
-    sts = a ++ m ++ f /\
-    stage is_authn a ma /\ stage is_mid m mm /\ stage is_fin f mf /\
-    (a = [] \/ (p_h p = [] /\ p_f p = [])) /\ (m = [] \/ p_f p = []) /\
-    p' = pipes_app p ma mm mf.
-Proof.
-  revert p p'. induction sts as [|st sts IH]; intros p p'; simpl.
-  - split.
-    + intro H; inversion H; subst. exists [], [], [], [], [], []. unfold pipes_app, stage.
-      rewrite !app_nil_r. destruct p'; simpl. repeat split; auto.
-    + intros (a & m & f & ma & mm & mf & Hs & Ha & Hm & Hf & _ & _ & Hp).
-      symmetry in Hs. apply app_eq_nil in Hs as [-> Hs]. apply app_eq_nil in Hs as [-> ->].
-      inversion Ha; inversion Hm; inversion Hf; subst. unfold pipes_app. rewrite !app_nil_r.
-      destruct p; reflexivity.
-  - destruct (exec_step p st) as [p1| |] eqn:Hst.
-    + apply exec_step_ok in Hst as (k & mc & Hd & Ho & Hp1). rewrite IH. clear IH. split.
-      * intros (a & m & f & ma & mm & mf & Hs & Ha & Hm & Hf & Hoa & Hom & Hp').
-        destruct k.
-        -- (* authenticator *)
-           destruct Ho as [Hh Hf0].
-           exists (st :: a), m, f, (mc :: ma), mm, mf. subst sts p1. simpl. fin.
-        -- (* authorizer *)
-           simpl in Ho. subst p1. simpl in Hoa.
-           destruct Hoa as [->|[Hc _]]; [|exfalso; eapply app_nil_inv; eassumption].
-           inversion Ha; subst ma.
-           exists [], (st :: m), f, [], (mc :: mm), mf. simpl in *. subst sts. fin.
-        -- (* contextualizer *)
-           simpl in Ho. subst p1. simpl in Hoa.
-           destruct Hoa as [->|[Hc _]]; [|exfalso; eapply app_nil_inv; eassumption].
-           inversion Ha; subst ma.
-           exists [], (st :: m), f, [], (mc :: mm), mf. simpl in *. subst sts. fin.
-        -- (* finalizer *)
-           subst p1. simpl in Hoa, Hom.
-           destruct Hoa as [->|[_ Hc]]; [|exfalso; eapply app_nil_inv; eassumption].
-           destruct Hom as [->|Hc]; [|exfalso; eapply app_nil_inv; eassumption].
-           inversion Ha; subst ma. inversion Hm; subst mm.
-           exists [], [], (st :: f), [], [], (mc :: mf). simpl in *. subst sts. fin.
-        -- exfalso. destruct Hd as (kv & id & Hcl & _). eapply classify_not_eh; eassumption.
-      * (* converse: a decomposition of st :: sts gives one of sts *)
-        intros (a & m & f & ma & mm & mf & Hs & Ha & Hm & Hf & Hoa & Hom & Hp').
-        assert (Hdet : forall k' m', denotes st k' m' -> k' = k /\ m' = mc).
-        { intros k' m' (kv' & id' & Hcl' & Hi' & _ & _ & Hm').
-          destruct Hd as (kv & id & Hcl & Hi & _ & _ & Hmc).
-          rewrite Hcl in Hcl'. inversion Hcl'; subst k' kv'. rewrite Hi in Hi'. inversion Hi'; subst id'.
-          split; [reflexivity|].
-          destruct k; try congruence;
-            destruct Hm' as (c' & Hc' & ->); destruct Hmc as (c & Hc & ->); congruence. }
-        destruct a as [|st' a].
-        -- destruct m as [|st' m].
-           ++ destruct f as [|st' f]; [discriminate|]. simpl in Hs. inversion Hs; subst st' sts.
-              inversion Hf as [|? ? ? ? (k' & Hk' & Hd') Hf']; subst.
-              apply Hdet in Hd' as [-> ->]. red in Hk'. subst k.
-              exists [], [], f, [], [], l'. inversion Ha; inversion Hm; subst. simpl.
-              repeat split; auto; try constructor.
-              unfold pipes_app; simpl. rewrite <- !app_assoc, !app_nil_r. reflexivity.
-           ++ simpl in Hs. inversion Hs; subst st' sts.
-              inversion Hm as [|? ? ? ? (k' & Hk' & Hd') Hm']; subst.
-              apply Hdet in Hd' as [-> ->].
-              destruct Hom as [Hc|Hpf]; [discriminate|].
-              exists [], m, f, [], l', mf. inversion Ha; subst. simpl.
-              assert (Hu : upd p k mc = {| p_a := p_a p; p_h := p_h p ++ [mc]; p_f := p_f p |})
-                by (destruct Hk' as [->| ->]; reflexivity).
-              rewrite Hu. simpl. repeat split; auto; try constructor.
-              unfold pipes_app; simpl. rewrite <- !app_assoc, !app_nil_r. reflexivity.
-        -- simpl in Hs. inversion Hs; subst st' sts.
-           inversion Ha as [|? ? ? ? (k' & Hk' & Hd') Ha']; subst.
-           apply Hdet in Hd' as [-> ->]. red in Hk'. subst k.
-           destruct Hoa as [Hc|[Hph Hpf]]; [discriminate|].
-           exists a, m, f, l', mm, mf. simpl. repeat split; auto.
-           unfold pipes_app; simpl. rewrite <- !app_assoc. reflexivity.
-    + split; [discriminate|].
-      intros (a & m & f & ma & mm & mf & Hs & Ha & Hm & Hf & Hoa & Hom & Hp').
-      destruct (first_step_ok p st sts a m f ma mm mf Hs Ha Hm Hf Hoa Hom) as [p1 Hp1]. congruence.
-    + split; [discriminate|].
-      intros (a & m & f & ma & mm & mf & Hs & Ha & Hm & Hf & Hoa & Hom & Hp').
-      destruct (first_step_ok p st sts a m f ma mm mf Hs Ha Hm Hf Hoa Hom) as [p1 Hp1]. congruence.
-Qed.
-
-(** the `execute` list of a rule or of the default rule is accepted iff it is
-    authenticators, then authorizers/contextualizers, then finalizers, each step
-    denoting a known mechanism; the three created lists are exactly those *)
-Theorem order_language sts pa ph pf :
-  exec_pipeline empty_pipes sts = Ok {| p_a := pa; p_h := ph; p_f := pf |} <->
-  exists a m f, sts = a ++ m ++ f /\
-    stage is_authn a pa /\ stage is_mid m ph /\ stage is_fin f pf.
-Proof.
-  rewrite exec_pipeline_lang. unfold pipes_app, empty_pipes; simpl. split.
-  - intros (a & m & f & ma & mm & mf & Hs & Ha & Hm & Hf & _ & _ & Hp). inversion Hp; subst.
-    exists a, m, f. auto.
-  - intros (a & m & f & Hs & Ha & Hm & Hf). exists a, m, f, pa, ph, pf. splits; auto.
-Qed.
-
-(** ** Error-handler lists *)
-
-Definition eh_denotes (e : ehstep) (m : mech) : Prop :=
-  exists kv id c, e_key e = Some kv /\ k_id kv = Some id /\ k_ok kv = true /\ e_cfg e <> CfgBad /\
-    cond_res (e_if e) = Ok c /\ m = {| m_kind := KEh; m_id := id; m_cond := c |}.
-
-Lemma eh_step_ok e m : eh_step e = Ok m <-> eh_denotes e m.
-Proof.
-  unfold eh_step, eh_denotes. split.
-  - destruct (e_key e) as [kv|]; [|discriminate].
-    destruct (e_cfg e) eqn:Ecfg; try discriminate;
-      (destruct (cond_res (e_if e)) as [c| |]; try discriminate;
-       destruct (k_id kv) as [id|] eqn:Hid; try discriminate;
-       destruct (k_ok kv) eqn:Hok; try discriminate;
-       intro H; inversion H; subst; exists kv, id, c; splits; try congruence; try reflexivity).
-    all: idtac.
-  - intros (kv & id & c & -> & -> & -> & Hcfg & -> & ->).
-    destruct (e_cfg e); congruence.
-Qed.
-
-Lemma eh_pipeline_ok acc es out :
-  eh_pipeline acc es = Ok out <-> exists ms, Forall2 eh_denotes es ms /\ out = acc ++ ms.
-Proof.
-  revert acc out. induction es as [|e es IH]; intros acc out; simpl.
-  - split.
-    + intro H; inversion H; subst. exists []. rewrite app_nil_r. split; [constructor | reflexivity].
-    + intros (ms & Hf & ->). inversion Hf. rewrite app_nil_r. reflexivity.
-  - destruct (eh_step e) as [m| |] eqn:He.
-    + apply eh_step_ok in He. rewrite IH. split.
-      * intros (ms & Hf & ->). exists (m :: ms). split; [constructor; assumption|].
-        rewrite <- app_assoc. reflexivity.
-      * intros (ms & Hf & ->). inversion Hf as [|? m' ? ms' He' Hf']; subst.
-        assert (m' = m).
-        { destruct He as (kv & id & c & H1 & H2 & _ & _ & H3 & ->).
-          destruct He' as (kv' & id' & c' & H1' & H2' & _ & _ & H3' & ->). congruence. }
-        subst. exists ms'. split; [assumption|]. rewrite <- app_assoc. reflexivity.
-    + split; [discriminate|]. intros (ms & Hf & _). inversion Hf as [|? m' ? ms' He' Hf']; subst.
-      apply eh_step_ok in He'. congruence.
-    + split; [discriminate|]. intros (ms & Hf & _). inversion Hf as [|? m' ? ms' He' Hf']; subst.
-      apply eh_step_ok in He'. congruence.
-Qed.
-
-(** ** CreateRule *)
-
-(** the rule's own four stages, when its definition is well formed *)
-Definition own_stages (r : rule_def) (a h f e : list mech) : Prop :=
-  exec_pipeline empty_pipes (r_exec r) = Ok {| p_a := a; p_h := h; p_f := f |} /\
-  eh_pipeline [] (r_eh r) = Ok e.
-
-Definition inherit (own def : list mech) : list mech :=
-  match own with [] => def | _ => own end.
+Lemma inherit_nil own : inherit own [] = own.
+Proof. destruct own; reflexivity. Qed.
 
 Lemma or_default_inherit own def : or_default own def = inherit own def.
 Proof. destruct own; reflexivity. Qed.
 
-(** the specification of the effective rule (property statement, sentence 1) *)
-Definition spec_effective (def : option effective) (r : rule_def) (a h f e : list mech) : effective :=
-  match def with
-  | Some d => {| f_sc := inherit a (f_sc d); f_sh := inherit h (f_sh d);
-                 f_fi := inherit f (f_fi d); f_eh := inherit e (f_eh d);
-                 f_bt := match r_bt r with Some b => b | None => f_bt d end |}
-  | None => {| f_sc := a; f_sh := h; f_fi := f; f_eh := e;
-               f_bt := match r_bt r with Some b => b | None => false end |}
+Lemma all_some_map_ext {A B} (f g : A -> option B) l :
+  (forall x, In x l -> f x = g x) -> all_some (map f l) = all_some (map g l).
+Proof.
+  induction l as [|x l IH]; intro H; simpl; [reflexivity|].
+  rewrite (H x (or_introl eq_refl)), IH; [reflexivity|]. intros y Hy. apply H. right. exact Hy.
+Qed.
+
+Lemma all_some_Some {A B} (f : A -> option B) l ms :
+  all_some (map f l) = Some ms <-> Forall2 (fun x m => f x = Some m) l ms.
+Proof.
+  revert ms. induction l as [|x l IH]; intros ms; simpl.
+  - split; [intro H; inversion H; constructor | intro H; inversion H; reflexivity].
+  - destruct (f x) as [m|] eqn:Hx.
+    + destruct (all_some (map f l)) as [ms'|] eqn:Hl.
+      * split.
+        -- intro H; inversion H; subst. constructor; [assumption | apply IH; reflexivity].
+        -- intro H. inversion H as [|? m' ? ms'' Hm Hr]; subst. apply IH in Hr. congruence.
+      * split; [discriminate|]. intro H. inversion H as [|? m' ? ms'' Hm Hr]; subst. apply IH in Hr. discriminate.
+    + split; [discriminate|]. intro H. inversion H; subst. congruence.
+Qed.
+
+Lemma all_some_None {A B} (f : A -> option B) l :
+  all_some (map f l) = None <-> exists x, In x l /\ f x = None.
+Proof.
+  induction l as [|x l IH]; simpl.
+  - split; [discriminate | intros (x & [] & _)].
+  - destruct (f x) as [m|] eqn:Hx.
+    + destruct (all_some (map f l)) as [ms'|] eqn:Hl.
+      * split; [discriminate|]. intros (y & [<-|Hy] & Hn); [congruence|].
+        assert (Hs : None = None :> option (list B)) by reflexivity.
+        destruct IH as [_ IH]. specialize (IH (ex_intro _ y (conj Hy Hn))). discriminate.
+      * split; [|reflexivity]. intros _. destruct IH as [IH _]. destruct (IH eq_refl) as (y & Hy & Hn).
+        exists y. split; [right; assumption | assumption].
+    + split; [|reflexivity]. intros _. exists x. split; [left; reflexivity | assumption].
+Qed.
+
+(** ** One `execute` step *)
+
+(** the mechanism a step denotes AS THE CODE READS IT: the first mechanism key
+    in the order authenticator, authorizer, contextualizer, finalizer; the `if` of
+    an authenticator step is not looked at.  On the steps the statement speaks
+    about this is the specification's [spec_mech] (lemma [model_mech_scoped]). *)
+Definition model_mech (st : step) : option mech :=
+  match classify st with
+  | Some (KAuthn, kv) => spec_ref KAuthn kv (s_cfg st) CondNil
+  | Some (k, kv) => spec_ref k kv (s_cfg st) (s_if st)
+  | None => None
   end.
 
-(** guard of finding C14-F1: no default rule and the rule asks for backtracking *)
-Definition guard_F1 (def : option effective) (r : rule_def) : bool :=
-  match def, r_bt r with None, Some true => true | _, _ => false end.
-
-Lemma create_rule_char fixed proxy def r eff :
-  create_rule fixed proxy def r = Ok eff <->
-  exists a h f e, own_stages r a h f e /\
-    (proxy = true -> r_backend r = true) /\ r_matchers_ok r = true /\
-    f_sc eff <> [] /\
-    eff = (if fixed || negb (guard_F1 def r) then spec_effective def r a h f e
-           else {| f_sc := a; f_sh := h; f_fi := f; f_eh := e; f_bt := false |}).
+Lemma model_mech_scoped st : scoped_step st = true -> model_mech st = spec_mech st.
 Proof.
-  unfold create_rule, own_stages. split.
-  - destruct (proxy && negb (r_backend r)) eqn:Hpx; [discriminate|].
-    destruct (exec_pipeline empty_pipes (r_exec r)) as [[a h f]| |]; try discriminate.
-    destruct (eh_pipeline [] (r_eh r)) as [e| |]; try discriminate. simpl.
-    match goal with |- (if is_nil (f_sc ?E) then _ else _) = _ -> _ => set (E0 := E) end.
-    destruct (is_nil (f_sc E0)) eqn:Hn; [discriminate|].
-    destruct (r_matchers_ok r) eqn:Hm; [|discriminate]. simpl.
-    intro H; inversion H; subst eff. exists a, h, f, e. splits; auto.
-    + intro Hp; subst proxy. simpl in Hpx. destruct (r_backend r); [reflexivity|discriminate].
-    + intro Hc. rewrite Hc in Hn. discriminate.
-    + subst E0. unfold spec_effective, guard_F1.
-      destruct def as [d|]; rewrite ?or_default_inherit; simpl.
-      * rewrite orb_true_r. reflexivity.
-      * destruct fixed; simpl; [reflexivity|]. destruct (r_bt r) as [[|]|]; reflexivity.
-  - intros (a & h & f & e & [-> ->] & Hpx & Hm & Hne & Heff). simpl.
-    assert (Hp : proxy && negb (r_backend r) = false).
-    { destruct proxy; [rewrite Hpx by reflexivity|]; reflexivity. }
-    rewrite Hp, Hm. simpl.
-    match goal with |- (if is_nil (f_sc ?E) then _ else _) = _ => set (E0 := E) end.
-    assert (E0 = eff).
-    { subst E0 eff. unfold spec_effective, guard_F1.
-      destruct def as [d|]; rewrite ?or_default_inherit; simpl.
-      - rewrite orb_true_r. reflexivity.
-      - destruct fixed; simpl; [reflexivity|]. destruct (r_bt r) as [[|]|]; reflexivity. }
-    rewrite H. destruct (f_sc eff); [congruence|reflexivity].
+  unfold scoped_step, model_mech, spec_mech, classify, keys_of, opt_key.
+  destruct (s_authn st), (s_authz st), (s_ctx st), (s_fin st); simpl; try discriminate; try reflexivity.
+  destruct (s_if st); try discriminate. reflexivity.
 Qed.
 
-(** C14, sentence 1, stage-wise inheritance and backtracking — for the code as
-    it is ([fixed = false]) outside the guard of C14-F1, and unconditionally for the
-    repaired function *)
-Theorem stagewise_inheritance fixed proxy def r eff :
-  fixed || negb (guard_F1 def r) = true ->
-  create_rule fixed proxy def r = Ok eff ->
-  exists a h f e, own_stages r a h f e /\ eff = spec_effective def r a h f e.
+Lemma model_mech_kind st m : model_mech st = Some m -> m_kind m <> KEh.
 Proof.
-  intros Hg H. apply create_rule_char in H as (a & h & f & e & Ho & _ & _ & _ & He).
-  rewrite Hg in He. exists a, h, f, e. auto.
+  unfold model_mech, classify, spec_ref.
+  destruct (s_authn st) as [kv|]; [|destruct (s_authz st) as [kv|]; [|destruct (s_ctx st) as [kv|];
+    [|destruct (s_fin st) as [kv|]; [|discriminate]]]];
+  destruct (k_id kv); try discriminate; destruct (spec_cfg (s_cfg st)); try discriminate;
+  try (destruct (spec_cond (s_if st)); try discriminate); simpl;
+  destruct (k_ok kv); try discriminate; intro H; inversion H; subst; simpl; discriminate.
 Qed.
 
-Theorem F1_refuted :
-  exists def r eff, guard_F1 def r = true /\ create_rule false false def r = Ok eff /\
-    forall a h f e, own_stages r a h f e -> eff <> spec_effective def r a h f e.
+Lemma create_spec k kv cfg c cv :
+  spec_cond cv = Some c -> create k kv cfg c = of_opt (spec_ref k kv cfg cv).
 Proof.
-  exists None.
-  exists {| r_exec := [ {| s_authn := Some {| k_id := Some 0; k_ok := true |}; s_authz := None; s_ctx := None;
-                           s_fin := None; s_if := CondNil; s_cfg := CfgNil |} ];
-            r_eh := []; r_bt := Some true; r_backend := false; r_matchers_ok := true |}.
-  eexists. split; [reflexivity|]. split; [vm_compute; reflexivity|].
-  intros a h f e [H1 H2]. vm_compute in H1, H2. inversion H1; inversion H2; subst.
-  unfold spec_effective; simpl. discriminate.
+  intro Hc. unfold create, spec_ref. rewrite Hc.
+  destruct (k_id kv); [|reflexivity]. destruct cfg; simpl; try reflexivity; destruct (k_ok kv); reflexivity.
 Qed.
 
-(** sentence 2: what is rejected.  A rule is accepted only if ... (all of) *)
-Theorem accepted_only_if_wellformed fixed proxy def r eff :
-  create_rule fixed proxy def r = Ok eff ->
-  (* ordered, known mechanisms, valid overrides and conditions *)
-  (exists a m f pa ph pf, r_exec r = a ++ m ++ f /\
-      stage is_authn a pa /\ stage is_mid m ph /\ stage is_fin f pf) /\
-  (exists pe, Forall2 eh_denotes (r_eh r) pe) /\
-  (* ends up with an authenticator *)
-  f_sc eff <> [] /\
-  (* forward_to in proxy mode *)
-  (proxy = true -> r_backend r = true).
+Lemma cond_res_spec cv : cond_res cv = of_opt (spec_cond cv).
+Proof. destruct cv; reflexivity. Qed.
+
+Lemma spec_ref_bad_cond k kv cfg cv : spec_cond cv = None -> spec_ref k kv cfg cv = None.
+Proof. intro H. unfold spec_ref. rewrite H. destruct (k_id kv); [destruct (spec_cfg cfg)|]; reflexivity. Qed.
+
+Lemma spec_ref_kind k kv cfg cv m : spec_ref k kv cfg cv = Some m -> m_kind m = k.
 Proof.
-  intro H. apply create_rule_char in H as (a & h & f & e & [Ho He] & Hpx & _ & Hne & _).
-  apply order_language in Ho as (sa & sm & sf & Hs & Ha & Hm & Hf).
-  apply eh_pipeline_ok in He as (ms & Hms & ->).
-  splits; auto.
-  - exists sa, sm, sf, a, h, f. auto.
-  - exists ms. assumption.
+  unfold spec_ref. destruct (k_id kv); [|discriminate]. destruct (spec_cfg cfg); [|discriminate].
+  destruct (spec_cond cv); [|discriminate]. destruct (k_ok kv); [|discriminate]. intro H; inversion H; reflexivity.
 Qed.
 
-(** and conversely every well-formed definition is accepted (nothing else is rejected) *)
-Theorem wellformed_accepted fixed proxy def r a m f pa ph pf pe :
-  r_exec r = a ++ m ++ f ->
-  stage is_authn a pa -> stage is_mid m ph -> stage is_fin f pf ->
-  Forall2 eh_denotes (r_eh r) pe ->
-  (pa <> [] \/ exists d, def = Some d /\ f_sc d <> []) ->
+Lemma create_handler_spec k kv st b :
+  create_handler k kv st b = if b then of_opt (spec_ref k kv (s_cfg st) (s_if st)) else Rejected.
+Proof.
+  unfold create_handler. destruct b; simpl; [|reflexivity].
+  rewrite cond_res_spec. destruct (spec_cond (s_if st)) as [c|] eqn:Hc; simpl.
+  - apply create_spec. exact Hc.
+  - rewrite spec_ref_bad_cond by exact Hc. reflexivity.
+Qed.
+
+Lemma exec_step_char p st :
+  exec_step p st =
+  match model_mech st with
+  | Some m => if order_okb p (m_kind m) then Ok (upd p (m_kind m) m) else Rejected
+  | None => Rejected
+  end.
+Proof.
+  unfold exec_step, model_mech. destruct (classify st) as [[k kv]|]; [|reflexivity].
+  destruct k.
+  - destruct (spec_ref KAuthn kv (s_cfg st) CondNil) as [m|] eqn:Hm.
+    + rewrite (spec_ref_kind _ _ _ _ _ Hm). destruct (order_okb p KAuthn); [|reflexivity].
+      rewrite (create_spec KAuthn kv (s_cfg st) None CondNil eq_refl), Hm. reflexivity.
+    + destruct (order_okb p KAuthn); [|reflexivity].
+      rewrite (create_spec KAuthn kv (s_cfg st) None CondNil eq_refl), Hm. reflexivity.
+  - rewrite create_handler_spec. destruct (spec_ref KAuthz kv (s_cfg st) (s_if st)) as [m|] eqn:Hm.
+    + rewrite (spec_ref_kind _ _ _ _ _ Hm). destruct (order_okb p KAuthz); reflexivity.
+    + destruct (order_okb p KAuthz); reflexivity.
+  - rewrite create_handler_spec. destruct (spec_ref KCtx kv (s_cfg st) (s_if st)) as [m|] eqn:Hm.
+    + rewrite (spec_ref_kind _ _ _ _ _ Hm). destruct (order_okb p KCtx); reflexivity.
+    + destruct (order_okb p KCtx); reflexivity.
+  - rewrite create_handler_spec. destruct (spec_ref KFin kv (s_cfg st) (s_if st)) as [m|] eqn:Hm.
+    + rewrite (spec_ref_kind _ _ _ _ _ Hm). destruct (order_okb p KFin); reflexivity.
+    + destruct (order_okb p KFin); reflexivity.
+  - rewrite create_handler_spec. destruct (spec_ref KEh kv (s_cfg st) (s_if st)) as [m|] eqn:Hm.
+    + rewrite (spec_ref_kind _ _ _ _ _ Hm). destruct (order_okb p KEh); reflexivity.
+    + destruct (order_okb p KEh); reflexivity.
+Qed.
+
+(** ** The `execute` list: the accumulating order checks of the code are the
+    global "sorted by stage" of the specification *)
+
+(** the stage the pipeline built so far has reached *)
+Definition floor (p : pipes) : nat :=
+  if negb (is_nil (p_f p)) then 2 else if negb (is_nil (p_h p)) then 1 else 0.
+
+Lemma order_okb_floor p k : order_okb p k = (floor p <=? rank k).
+Proof.
+  unfold order_okb, floor. destruct k; destruct (p_f p), (p_h p); reflexivity.
+Qed.
+
+Lemma app_one_not_nil {A} (l : list A) x : is_nil (l ++ [x]) = false.
+Proof. destruct l; reflexivity. Qed.
+
+Lemma floor_upd p k m : k <> KEh -> order_okb p k = true -> floor (upd p k m) = rank k.
+Proof.
+  intros Hk. unfold order_okb, floor, upd.
+  destruct k; simpl; try congruence; rewrite ?app_one_not_nil; simpl.
+  - rewrite andb_true_iff, !is_nil_true. intros [-> ->]. reflexivity.
+  - rewrite is_nil_true. intros ->. reflexivity.
+  - rewrite is_nil_true. intros ->. reflexivity.
+  - reflexivity.
+Qed.
+
+Definition rk (m : mech) : nat := rank (m_kind m).
+
+Lemma sortedb_cons x y l : sortedb (x :: y :: l) = (x <=? y) && sortedb (y :: l).
+Proof. reflexivity. Qed.
+
+Definition pipes_app (p : pipes) (ms : list mech) : pipes :=
+  {| p_a := p_a p ++ filter (of_rank 0) ms; p_h := p_h p ++ filter (of_rank 1) ms;
+     p_f := p_f p ++ filter (of_rank 2) ms |}.
+
+Lemma pipes_app_cons p m ms :
+  m_kind m <> KEh -> pipes_app (upd p (m_kind m) m) ms = pipes_app p (m :: ms).
+Proof.
+  intro Hk. unfold pipes_app, upd. cbn [filter]. unfold of_rank.
+  destruct (m_kind m) eqn:Ek; simpl; try congruence; rewrite <- ?app_assoc; reflexivity.
+Qed.
+
+Lemma exec_pipeline_char sts : forall p,
+  exec_pipeline p sts =
+  match all_some (map model_mech sts) with
+  | Some ms => if sortedb (floor p :: map rk ms) then Ok (pipes_app p ms) else Rejected
+  | None => Rejected
+  end.
+Proof.
+  induction sts as [|st sts IH]; intro p.
+  - simpl. unfold pipes_app; simpl. rewrite !app_nil_r. destruct p; reflexivity.
+  - cbn [exec_pipeline map all_some]. rewrite exec_step_char.
+    destruct (model_mech st) as [m|] eqn:Hm; [|reflexivity].
+    pose proof (model_mech_kind _ _ Hm) as Hk.
+    destruct (order_okb p (m_kind m)) eqn:Ho.
+    + rewrite IH. rewrite (floor_upd _ _ _ Hk Ho).
+      destruct (all_some (map model_mech sts)) as [ms|]; [|reflexivity].
+      rewrite order_okb_floor in Ho.
+      cbn [map]. rewrite sortedb_cons. change (rk m) with (rank (m_kind m)). rewrite Ho. cbn [andb].
+      destruct (sortedb (rank (m_kind m) :: map rk ms)); [|reflexivity].
+      rewrite pipes_app_cons by exact Hk. reflexivity.
+    + destruct (all_some (map model_mech sts)) as [ms|]; [|reflexivity].
+      rewrite order_okb_floor in Ho.
+      cbn [map]. rewrite sortedb_cons. change (rk m) with (rank (m_kind m)). rewrite Ho. reflexivity.
+Qed.
+
+Lemma sortedb_zero l : sortedb (0 :: l) = sortedb l.
+Proof. destruct l; reflexivity. Qed.
+
+Definition triple_pipes (t : list mech * list mech * list mech) : pipes :=
+  let '(a, h, f) := t in {| p_a := a; p_h := h; p_f := f |}.
+
+(** the pipeline language of the code, for every list of step maps *)
+Definition model_pipeline (sts : list step) : option (list mech * list mech * list mech) :=
+  match all_some (map model_mech sts) with
+  | Some ms => if sortedb (map rk ms)
+               then Some (filter (of_rank 0) ms, filter (of_rank 1) ms, filter (of_rank 2) ms)
+               else None
+  | None => None
+  end.
+
+Theorem pipeline_language sts :
+  exec_pipeline empty_pipes sts = of_opt (option_map triple_pipes (model_pipeline sts)).
+Proof.
+  rewrite exec_pipeline_char. unfold model_pipeline.
+  destruct (all_some (map model_mech sts)) as [ms|]; [|reflexivity].
+  change (floor empty_pipes) with 0. rewrite sortedb_zero.
+  destruct (sortedb (map rk ms)); reflexivity.
+Qed.
+
+Lemma model_pipeline_scoped sts :
+  forallb scoped_step sts = true -> model_pipeline sts = spec_pipeline sts.
+Proof.
+  intro H. unfold model_pipeline, spec_pipeline.
+  rewrite (all_some_map_ext model_mech spec_mech); [reflexivity|].
+  intros st Hin. apply model_mech_scoped. rewrite forallb_forall in H. apply H. exact Hin.
+Qed.
+
+(** ** Error-handler lists *)
+
+Lemma eh_step_spec e : eh_step e = of_opt (spec_eh_mech e).
+Proof.
+  unfold eh_step, spec_eh_mech. destruct (e_key e) as [kv|]; [|reflexivity].
+  destruct (k_id kv) as [id|] eqn:Hid.
+  - destruct (e_cfg e) eqn:Hcfg.
+    + rewrite cond_res_spec. destruct (spec_cond (e_if e)) as [c|] eqn:Hc; simpl.
+      * apply create_spec. exact Hc.
+      * rewrite spec_ref_bad_cond by exact Hc. reflexivity.
+    + rewrite cond_res_spec. destruct (spec_cond (e_if e)) as [c|] eqn:Hc; simpl.
+      * apply create_spec. exact Hc.
+      * rewrite spec_ref_bad_cond by exact Hc. reflexivity.
+    + unfold spec_ref. rewrite Hid. reflexivity.
+  - unfold spec_ref. rewrite Hid. reflexivity.
+Qed.
+
+Lemma eh_pipeline_char es : forall acc,
+  eh_pipeline acc es = match spec_errors es with Some ms => Ok (acc ++ ms) | None => Rejected end.
+Proof.
+  unfold spec_errors. induction es as [|e es IH]; intro acc; simpl.
+  - rewrite app_nil_r. reflexivity.
+  - rewrite eh_step_spec. destruct (spec_eh_mech e) as [m|]; simpl; [|reflexivity].
+    rewrite IH. destruct (all_some (map spec_eh_mech es)); [|reflexivity].
+    rewrite <- app_assoc. reflexivity.
+Qed.
+
+(** ** CreateRule and initWithDefaultRule against the specification *)
+
+Lemma exec_pipeline_scoped sts :
+  forallb scoped_step sts = true ->
+  exec_pipeline empty_pipes sts = of_opt (option_map triple_pipes (spec_pipeline sts)).
+Proof. intro H. rewrite pipeline_language, model_pipeline_scoped by exact H. reflexivity. Qed.
+
+(** the rule factory computes the specification's effective rule on every
+    definition in the scope of the statement (the matchers are C03's business:
+    a rule whose matchers cannot be built is rejected whatever its pipeline) *)
+Theorem create_rule_spec proxy def r :
+  scoped_rule r = true ->
+  create_rule proxy def r = if r_matchers_ok r then of_opt (spec_rule proxy def r) else Rejected.
+Proof.
+  intro Hs. unfold create_rule, spec_rule.
+  destruct (proxy && negb (r_backend r)); [destruct (r_matchers_ok r); reflexivity|].
+  rewrite (exec_pipeline_scoped _ Hs), eh_pipeline_char.
+  destruct (spec_pipeline (r_exec r)) as [[[a h] f]|]; simpl; [|destruct (r_matchers_ok r); reflexivity].
+  destruct (spec_errors (r_eh r)) as [e|]; simpl; [|destruct (r_matchers_ok r); reflexivity].
+  destruct def as [d|]; simpl; rewrite ?or_default_inherit, ?inherit_nil.
+  - destruct (inherit a (f_sc d)) eqn:Hsc; simpl; [destruct (r_matchers_ok r); reflexivity|].
+    destruct (r_matchers_ok r); reflexivity.
+  - destruct a; simpl; [destruct (r_matchers_ok r); reflexivity|].
+    destruct (r_matchers_ok r); reflexivity.
+Qed.
+
+Theorem init_default_spec d :
+  forallb scoped_step (d_exec d) = true -> init_default d = of_opt (spec_default d).
+Proof.
+  intro Hs. unfold init_default, spec_default. rewrite (exec_pipeline_scoped _ Hs), eh_pipeline_char.
+  destruct (spec_pipeline (d_exec d)) as [[[a h] f]|]; simpl; [|reflexivity].
+  destruct (spec_errors (d_eh d)) as [e|]; simpl; [|destruct a; reflexivity].
+  destruct a; reflexivity.
+Qed.
+
+(** ** The model never panics (since fix f8fe9cb every malformed shape is a rejection) *)
+
+Lemma exec_pipeline_no_panic sts : exec_pipeline empty_pipes sts <> Panic.
+Proof. rewrite pipeline_language. destruct (model_pipeline sts); discriminate. Qed.
+
+Lemma eh_pipeline_no_panic es acc : eh_pipeline acc es <> Panic.
+Proof. rewrite eh_pipeline_char. destruct (spec_errors es); discriminate. Qed.
+
+Lemma create_rule_no_panic proxy def r : create_rule proxy def r <> Panic.
+Proof.
+  unfold create_rule. destruct (proxy && negb (r_backend r)); [discriminate|].
+  pose proof (exec_pipeline_no_panic (r_exec r)) as H1.
+  destruct (exec_pipeline empty_pipes (r_exec r)) as [p| |]; [|discriminate|congruence].
+  pose proof (eh_pipeline_no_panic (r_eh r) []) as H2.
+  destruct (eh_pipeline [] (r_eh r)) as [eh| |]; [|discriminate|congruence].
+  match goal with |- (if is_nil ?x then _ else _) <> _ => destruct (is_nil x) end; [discriminate|].
+  destruct (negb (r_matchers_ok r)); discriminate.
+Qed.
+
+Lemma init_default_no_panic d : init_default d <> Panic.
+Proof.
+  unfold init_default.
+  pose proof (exec_pipeline_no_panic (d_exec d)) as H1.
+  destruct (exec_pipeline empty_pipes (d_exec d)) as [p| |]; [|discriminate|congruence].
+  pose proof (eh_pipeline_no_panic (d_eh d) []) as H2.
+  destruct (eh_pipeline [] (d_eh d)) as [eh| |]; [|discriminate|congruence].
+  destruct (is_nil (p_a p)); discriminate.
+Qed.
+
+Lemma load_rules_no_panic proxy def rs : load_rules proxy def rs <> Panic.
+Proof.
+  induction rs as [|r rest IH]; cbn [load_rules]; [discriminate|].
+  pose proof (create_rule_no_panic proxy def r) as H.
+  destruct (create_rule proxy def r); [|discriminate|congruence].
+  destruct (load_rules proxy def rest); [discriminate|discriminate|congruence].
+Qed.
+
+(** ** The statement, clause by clause *)
+
+(** sentence 1: stage by stage own-else-default; backtracking own / default / off.
+    [a], [h], [f], [e] are the rule's own mechanisms of the four stages: the
+    mechanisms its steps denote, in definition order, split by kind. *)
+Theorem stagewise_inheritance proxy def r eff :
+  scoped_rule r = true ->
+  create_rule proxy def r = Ok eff ->
+  exists ms e,
+    all_some (map spec_mech (r_exec r)) = Some ms /\ spec_errors (r_eh r) = Some e /\
+    f_sc eff = inherit (filter (of_rank 0) ms) (dflt def f_sc) /\
+    f_sh eff = inherit (filter (of_rank 1) ms) (dflt def f_sh) /\
+    f_fi eff = inherit (filter (of_rank 2) ms) (dflt def f_fi) /\
+    f_eh eff = inherit e (dflt def f_eh) /\
+    f_bt eff = match r_bt r with
+               | Some b => b
+               | None => match def with Some d => f_bt d | None => false end
+               end.
+Proof.
+  intros Hs H. rewrite (create_rule_spec _ _ _ Hs) in H.
+  destruct (r_matchers_ok r); [|discriminate].
+  unfold spec_rule in H. destruct (proxy && negb (r_backend r)); [discriminate|].
+  unfold spec_pipeline in H.
+  destruct (all_some (map spec_mech (r_exec r))) as [ms|]; [|discriminate].
+  destruct (sortedb (map (fun m => rank (m_kind m)) ms)); [|discriminate].
+  destruct (spec_errors (r_eh r)) as [e|]; [|discriminate].
+  destruct (inherit (filter (of_rank 0) ms) (dflt def f_sc)) eqn:Hsc; [discriminate|].
+  simpl in H. inversion H; subst eff; simpl. exists ms, e. splits; auto.
+Qed.
+
+(** sentence 2: each of the listed defects rejects the rule *)
+Theorem malformed_rejected proxy def r :
+  scoped_rule r = true ->
+  (* a step that names no mechanism / an unknown mechanism / a bad override / a bad condition *)
+  (exists st, In st (r_exec r) /\ spec_mech st = None) \/
+  (exists e, In e (r_eh r) /\ spec_eh_mech e = None) \/
+  (* not ordered authenticators, authorizers/contextualizers, finalizers *)
+  (exists ms, all_some (map spec_mech (r_exec r)) = Some ms /\ sortedb (map rk ms) = false) \/
+  (* ends up without an authenticator *)
+  (exists ms, all_some (map spec_mech (r_exec r)) = Some ms /\ filter (of_rank 0) ms = [] /\ dflt def f_sc = []) \/
+  (* no forward_to in proxy mode *)
+  (proxy = true /\ r_backend r = false) ->
+  create_rule proxy def r = Rejected.
+Proof.
+  intros Hs H. rewrite (create_rule_spec _ _ _ Hs).
+  assert (Hn : spec_rule proxy def r = None); [|rewrite Hn; destruct (r_matchers_ok r); reflexivity].
+  unfold spec_rule, spec_pipeline.
+  destruct H as [(st & Hin & Hst)|[(e & Hin & He)|[(ms & Hms & Hso)|[(ms & Hms & Ha & Hd)|[-> ->]]]]].
+  - destruct (proxy && negb (r_backend r)); [reflexivity|].
+    assert (Hx : all_some (map spec_mech (r_exec r)) = None) by (apply all_some_None; eauto).
+    rewrite Hx. reflexivity.
+  - destruct (proxy && negb (r_backend r)); [reflexivity|].
+    assert (Hx : spec_errors (r_eh r) = None) by (apply all_some_None; eauto).
+    rewrite Hx. destruct (all_some (map spec_mech (r_exec r))) as [ms|]; [|reflexivity].
+    destruct (sortedb _); reflexivity.
+  - destruct (proxy && negb (r_backend r)); [reflexivity|].
+    rewrite Hms. unfold rk in Hso. rewrite Hso. reflexivity.
+  - destruct (proxy && negb (r_backend r)); [reflexivity|].
+    rewrite Hms. destruct (sortedb _); [|reflexivity].
+    destruct (spec_errors (r_eh r)); [|reflexivity]. rewrite Ha, Hd. reflexivity.
+  - reflexivity.
+Qed.
+
+(** the converse for the rule factory: nothing else is rejected *)
+Theorem wellformed_accepted proxy def r ms e :
+  scoped_rule r = true ->
+  all_some (map spec_mech (r_exec r)) = Some ms -> sortedb (map rk ms) = true ->
+  spec_errors (r_eh r) = Some e ->
+  (filter (of_rank 0) ms <> [] \/ dflt def f_sc <> []) ->
   (proxy = true -> r_backend r = true) -> r_matchers_ok r = true ->
-  exists eff, create_rule fixed proxy def r = Ok eff.
+  exists eff, create_rule proxy def r = Ok eff.
 Proof.
-  intros Hs Ha Hm Hf He Hau Hpx Hmm.
-  eexists. apply create_rule_char. exists pa, ph, pf, pe. unfold own_stages. splits; auto.
-  - apply order_language. exists a, m, f. auto.
-  - apply eh_pipeline_ok. exists pe. auto.
-  - destruct (fixed || negb (guard_F1 def r)) eqn:Hg; unfold spec_effective.
-    + destruct def as [d|]; simpl.
-      * destruct Hau as [Hau|(d' & Hd & Hau)].
-        -- destruct pa; [congruence | discriminate].
-        -- inversion Hd; subst d'. destruct pa; [exact Hau | discriminate].
-      * destruct Hau as [Hau|(d' & Hd & _)]; [exact Hau | discriminate].
-    + simpl. destruct Hau as [Hau|(d' & Hd & Hau)]; [exact Hau|].
-      (* guard_F1 holds only without default rule *)
-      exfalso. subst def. unfold guard_F1 in Hg. rewrite orb_true_r in Hg. discriminate.
+  intros Hs Hms Hso He Hau Hpx Hmm. rewrite (create_rule_spec _ _ _ Hs), Hmm.
+  unfold spec_rule, spec_pipeline. rewrite Hms. unfold rk in Hso. rewrite Hso, He.
+  assert (Hp : proxy && negb (r_backend r) = false).
+  { destruct proxy; [rewrite Hpx by reflexivity|]; reflexivity. }
+  rewrite Hp.
+  destruct (inherit (filter (of_rank 0) ms) (dflt def f_sc)) eqn:Hi; [|eexists; reflexivity].
+  exfalso. unfold inherit in Hi. destruct (filter (of_rank 0) ms); [|discriminate].
+  destruct Hau as [Hc|Hc]; congruence.
 Qed.
 
 (** ** Rule sets are accepted or rejected as a whole *)
-Theorem ruleset_all_or_nothing fixed proxy def rs effs :
-  load_rules fixed proxy def rs = Ok effs <->
-  Forall2 (fun r e => create_rule fixed proxy def r = Ok e) rs effs.
+
+Theorem load_rules_all_or_nothing proxy def rs effs :
+  load_rules proxy def rs = Ok effs <->
+  Forall2 (fun r e => create_rule proxy def r = Ok e) rs effs.
 Proof.
   revert effs. induction rs as [|r rs IH]; intros effs; simpl.
   - split.
     + intro H; inversion H; constructor.
     + intro H; inversion H; reflexivity.
-  - destruct (create_rule fixed proxy def r) as [e| |] eqn:Hr.
-    + destruct (load_rules fixed proxy def rs) as [es| |] eqn:Hrs.
+  - destruct (create_rule proxy def r) as [e| |] eqn:Hr.
+    + destruct (load_rules proxy def rs) as [es| |] eqn:Hrs.
       * split.
         -- intro H; inversion H; subst. constructor; [assumption | apply IH; reflexivity].
         -- intro H. inversion H as [|? e' ? es' He Hes]; subst.
@@ -450,95 +441,451 @@ Proof.
     + split; [discriminate|]. intro H. inversion H; subst. congruence.
 Qed.
 
-(** one malformed rule anywhere in the set rejects the set *)
-Corollary ruleset_one_bad_rejects fixed proxy def rs1 r rs2 :
-  (forall e, create_rule fixed proxy def r <> Ok e) ->
-  forall effs, load_rules fixed proxy def (rs1 ++ r :: rs2) <> Ok effs.
+(** the loader of a rule set (parser validation, version check, factory):
+    accepted iff every rule passes the parser's validation, the version is
+    supported and the factory accepts every rule *)
+Theorem ruleset_all_or_nothing proxy def sd effs :
+  load_ruleset proxy def sd = Ok effs <->
+  forallb parse_ok (sd_rules sd) = true /\ sd_version_ok sd = true /\
+  Forall2 (fun r e => create_rule proxy def r = Ok e) (sd_rules sd) effs.
 Proof.
-  intros Hbad effs H. apply ruleset_all_or_nothing in H.
-  apply Forall2_app_inv_l in H as (l1 & l2 & _ & H2 & _).
-  inversion H2 as [|? e ? ? He _]; subst. exact (Hbad e He).
+  unfold load_ruleset. destruct (forallb parse_ok (sd_rules sd)); simpl.
+  - destruct (sd_version_ok sd); simpl.
+    + rewrite load_rules_all_or_nothing. tauto.
+    + split; [discriminate | intros (_ & H & _); discriminate].
+  - split; [discriminate | intros (H & _); discriminate].
 Qed.
 
-(** ** Totality of the loader (rule factory part of C19; holds since fix f8fe9cb) *)
-
-Lemma create_no_panic k kv cfg c : create k kv cfg c <> Panic.
-Proof. unfold create. destruct (k_id kv); [destruct cfg; try destruct (k_ok kv)|]; discriminate. Qed.
-
-Lemma create_handler_no_panic k kv st b : create_handler k kv st b <> Panic.
+(** one rule of the set that the factory does not accept: the set is reported
+    as rejected and the rules of the source stay what they were (creation as well
+    as update) *)
+Theorem ruleset_one_bad_rejects proxy def v rs1 r rs2 old :
+  (forall e, create_rule proxy def r <> Ok e) ->
+  let res := load_ruleset proxy def {| sd_version_ok := v; sd_rules := rs1 ++ r :: rs2 |} in
+  is_ok res = false /\ after old res = old.
 Proof.
-  unfold create_handler. destruct (negb b); [discriminate|].
-  destruct (s_if st); cbn [cond_res]; try discriminate; apply create_no_panic.
+  intros Hbad res.
+  assert (H : forall effs, res <> Ok effs).
+  { intros effs H. apply ruleset_all_or_nothing in H as (_ & _ & H). simpl in H.
+    apply Forall2_app_inv_l in H as (l1 & l2 & _ & H2 & _).
+    inversion H2 as [|? e ? ? He _]; subst. exact (Hbad e He). }
+  destruct res as [effs| |]; [exfalso; eapply H; reflexivity| |]; split; reflexivity.
 Qed.
 
-Lemma exec_step_no_panic p st : exec_step p st <> Panic.
+Lemma load_rules_spec proxy def rs :
+  forallb scoped_rule rs = true -> forallb parse_ok rs = true ->
+  load_rules proxy def rs = of_opt (spec_rules proxy def rs).
 Proof.
-  unfold exec_step. destruct (classify st) as [[k kv]|]; [|discriminate].
-  destruct k.
-  1: destruct (order_okb p KAuthn); [pose proof (create_no_panic KAuthn kv (s_cfg st) false) as H|];
-     [destruct (create KAuthn kv (s_cfg st) false); congruence || discriminate | discriminate].
-  all: match goal with |- context [create_handler ?k ?kv ?st ?b] =>
-         pose proof (create_handler_no_panic k kv st b) as H; destruct (create_handler k kv st b) end;
-       congruence || discriminate.
+  unfold spec_rules. induction rs as [|r rs IH]; simpl; [reflexivity|].
+  rewrite !andb_true_iff. intros [Hs Hss] [Hp Hps].
+  rewrite (create_rule_spec _ _ _ Hs). unfold parse_ok in Hp. apply andb_true_iff in Hp as [_ ->].
+  destruct (spec_rule proxy def r) as [e|]; simpl; [|reflexivity].
+  rewrite (IH Hss Hps). destruct (all_some (map (spec_rule proxy def) rs)); reflexivity.
 Qed.
 
-Lemma exec_pipeline_no_panic sts : forall p, exec_pipeline p sts <> Panic.
+(** the rule-set loader against the specification.  The parser's validation is
+    stricter than the statement: a rule without any `execute` step is refused
+    although, with a complete default rule, the specification gives it an
+    effective pipeline (documented deviation: over-rejection). *)
+Theorem load_ruleset_spec proxy def sd :
+  forallb scoped_rule (sd_rules sd) = true ->
+  load_ruleset proxy def sd =
+  if forallb parse_ok (sd_rules sd) && sd_version_ok sd then of_opt (spec_rules proxy def (sd_rules sd)) else Rejected.
 Proof.
-  induction sts as [|st r IH]; intro p; cbn [exec_pipeline]; [discriminate|].
-  pose proof (exec_step_no_panic p st) as H. destruct (exec_step p st); [apply IH|discriminate|congruence].
+  intro Hs. unfold load_ruleset. destruct (forallb parse_ok (sd_rules sd)) eqn:Hp; simpl; [|reflexivity].
+  destruct (sd_version_ok sd); simpl; [|reflexivity]. apply load_rules_spec; assumption.
 Qed.
 
-Lemma eh_step_no_panic e : eh_step e <> Panic.
+(** the converse at rule-set level needs the parser's extra demand *)
+Theorem ruleset_wellformed_accepted proxy def sd es :
+  forallb scoped_rule (sd_rules sd) = true ->
+  spec_rules proxy def (sd_rules sd) = Some es ->
+  forallb (fun r => negb (is_nil (r_exec r)) && r_matchers_ok r) (sd_rules sd) = true ->
+  sd_version_ok sd = true ->
+  load_ruleset proxy def sd = Ok es.
 Proof.
-  unfold eh_step. destruct (e_key e) as [kv|]; [|discriminate].
-  destruct (e_cfg e); try discriminate;
-    destruct (e_if e); cbn [cond_res]; try discriminate;
-    destruct (k_id kv); try discriminate; destruct (k_ok kv); discriminate.
+  intros Hs He Hp Hv. rewrite (load_ruleset_spec _ _ _ Hs).
+  change (forallb parse_ok (sd_rules sd) = true) in Hp. rewrite Hp, Hv, He. reflexivity.
 Qed.
 
-Lemma eh_pipeline_no_panic es : forall acc, eh_pipeline acc es <> Panic.
+(** ** The executed trace (rule_impl.go Execute) read stage by stage *)
+
+Section Traces.
+  Variable holds : nat -> nat -> bool.
+  Notation app := (applicable holds).
+
+  Lemma run_handlers_nofail p hs :
+    (forall h, In h hs -> fails p h = false) ->
+    run_handlers holds p hs = (map tm (filter (app p) hs), false).
+  Proof.
+    induction hs as [|h hs IH]; intro H; simpl; [reflexivity|].
+    rewrite IH by (intros x Hx; apply H; right; exact Hx).
+    destruct (app p h); [|reflexivity]. rewrite (H h (or_introl eq_refl)). reflexivity.
+  Qed.
+
+  Definition first_applicable (p : probe) (hs : list mech) : list tmech * bool :=
+    match find (app p) hs with Some h => ([tm h], true) | None => ([], false) end.
+
+  Lemma run_handlers_allfail p hs :
+    (forall h, In h hs -> fails p h = true) ->
+    run_handlers holds p hs = first_applicable p hs.
+  Proof.
+    unfold first_applicable. induction hs as [|h hs IH]; intro H; simpl; [reflexivity|].
+    destruct (app p h); [rewrite (H h (or_introl eq_refl)); reflexivity|].
+    apply IH. intros x Hx; apply H; right; exact Hx.
+  Qed.
+
+  Lemma run_eh_passthrough p hs :
+    passthrough p = true -> run_eh holds p hs = (map tm (filter (app p) hs), false).
+  Proof.
+    intro Hp. induction hs as [|h hs IH]; simpl; [reflexivity|].
+    rewrite IH, Hp. destruct (app p h); reflexivity.
+  Qed.
+
+  Lemma run_eh_first p hs :
+    passthrough p = false -> run_eh holds p hs = first_applicable p hs.
+  Proof.
+    intro Hp. unfold first_applicable. induction hs as [|h hs IH]; simpl; [reflexivity|].
+    rewrite Hp. destruct (app p h); [reflexivity | exact IH].
+  Qed.
+
+  Lemma run_authn_allfail p sc :
+    sc <> [] -> (forall a, In a sc -> fails p a = true) -> run_authn p sc = (map tm sc, true).
+  Proof.
+    induction sc as [|a sc IH]; intros Hne H; [congruence|].
+    cbn [run_authn]. rewrite (H a (or_introl eq_refl)). destruct sc as [|b sc]; [reflexivity|].
+    rewrite IH; [reflexivity | discriminate | intros x Hx; apply H; right; exact Hx].
+  Qed.
+
+  Definition stage_kinds (e : effective) : Prop :=
+    f_sc e <> [] /\ Forall (fun m => m_kind m = KAuthn) (f_sc e) /\
+    Forall (fun m => rank (m_kind m) = 1) (f_sh e) /\ Forall (fun m => m_kind m = KFin) (f_fi e).
+
+  Lemma Forall_In {A} (P : A -> Prop) l x : Forall P l -> In x l -> P x.
+  Proof. intros H Hx. rewrite Forall_forall in H. apply H. exact Hx. Qed.
+
+  (** nothing fails: the first authenticator, then every authorizer /
+      contextualizer whose condition holds, then every finalizer whose condition
+      holds, in the order of the effective rule; no error handler runs *)
+  Theorem run_success e p a sc :
+    pr_fail p = FNone -> f_sc e = a :: sc ->
+    run holds e p = (false, tm a :: map tm (filter (app p) (f_sh e)) ++ map tm (filter (app p) (f_fi e))).
+  Proof.
+    intros Hf Hsc. unfold run. rewrite Hsc. cbn [run_authn].
+    assert (Hnf : forall m, fails p m = false) by (intro m; unfold fails; rewrite Hf; reflexivity).
+    rewrite Hnf. rewrite !run_handlers_nofail by (intros; apply Hnf). reflexivity.
+  Qed.
+
+  (** every authenticator fails with an argument error: all of them are tried in
+      order; then every error handler whose condition holds (they decline) *)
+  Theorem run_authn_failure e p :
+    pr_fail p = FAuthn -> stage_kinds e ->
+    run holds e p = (true, map tm (f_sc e) ++ map tm (filter (app p) (f_eh e))).
+  Proof.
+    intros Hf (Hne & Ha & _ & _). unfold run.
+    rewrite run_authn_allfail; [| exact Hne |].
+    - rewrite run_eh_passthrough by (unfold passthrough; rewrite Hf; reflexivity). reflexivity.
+    - intros a Hin. unfold fails. rewrite Hf, (Forall_In _ _ _ Ha Hin). reflexivity.
+  Qed.
+
+  (** the authorization stage fails: the pipeline stops at the first authorizer
+      / contextualizer whose condition holds, no finalizer runs, the first
+      applicable error handler handles the error (else it is returned) *)
+  Theorem run_mid_failure e p a sc :
+    pr_fail p = FMid -> stage_kinds e -> f_sc e = a :: sc ->
+    run holds e p =
+    match find (app p) (f_sh e) with
+    | Some h => let '(te, handled) := first_applicable p (f_eh e) in (negb handled, [tm a] ++ [tm h] ++ te)
+    | None => (false, tm a :: map tm (filter (app p) (f_fi e)))
+    end.
+  Proof.
+    intros Hf (_ & Ha & Hh & Hfi) Hsc. unfold run. rewrite Hsc in *. cbn [run_authn].
+    assert (Hfa : fails p a = false).
+    { unfold fails. rewrite Hf, (Forall_In _ _ _ Ha (or_introl eq_refl)). reflexivity. }
+    rewrite Hfa. rewrite run_handlers_allfail.
+    2:{ intros h Hin. unfold fails. rewrite Hf. pose proof (Forall_In _ _ _ Hh Hin) as Hk.
+        cbv beta in Hk; revert Hk; destruct (m_kind h); simpl; intro Hk; try discriminate Hk; reflexivity. }
+    unfold first_applicable at 1. destruct (find (app p) (f_sh e)) as [h|].
+    - rewrite run_eh_first by (unfold passthrough; rewrite Hf; reflexivity).
+      destruct (first_applicable p (f_eh e)). reflexivity.
+    - rewrite run_handlers_nofail; [reflexivity|].
+      intros h Hin. unfold fails. rewrite Hf, (Forall_In _ _ _ Hfi Hin). reflexivity.
+  Qed.
+
+  (** the finalization stage fails *)
+  Theorem run_fin_failure e p a sc :
+    pr_fail p = FFin -> stage_kinds e -> f_sc e = a :: sc ->
+    run holds e p =
+    match find (app p) (f_fi e) with
+    | Some h => let '(te, handled) := first_applicable p (f_eh e) in
+                (negb handled, [tm a] ++ map tm (filter (app p) (f_sh e)) ++ [tm h] ++ te)
+    | None => (false, tm a :: map tm (filter (app p) (f_sh e)))
+    end.
+  Proof.
+    intros Hf (_ & Ha & Hh & Hfi) Hsc. unfold run. rewrite Hsc in *. cbn [run_authn].
+    assert (Hfa : fails p a = false).
+    { unfold fails. rewrite Hf, (Forall_In _ _ _ Ha (or_introl eq_refl)). reflexivity. }
+    rewrite Hfa. rewrite run_handlers_nofail.
+    2:{ intros h Hin. unfold fails. rewrite Hf. pose proof (Forall_In _ _ _ Hh Hin) as Hk.
+        cbv beta in Hk; revert Hk; destruct (m_kind h); simpl; intro Hk; try discriminate Hk; reflexivity. }
+    rewrite run_handlers_allfail.
+    2:{ intros h Hin. unfold fails. rewrite Hf, (Forall_In _ _ _ Hfi Hin). reflexivity. }
+    unfold first_applicable at 1. destruct (find (app p) (f_fi e)) as [h|].
+    - rewrite run_eh_first by (unfold passthrough; rewrite Hf; reflexivity).
+      destruct (first_applicable p (f_eh e)). rewrite <- !app_assoc. reflexivity.
+    - rewrite app_nil_r. reflexivity.
+  Qed.
+End Traces.
+
+(** the stages of an effective rule hold mechanisms of the stage's kinds *)
+Lemma filter_rank_Forall n ms : Forall (fun m => rank (m_kind m) = n) (filter (of_rank n) ms).
 Proof.
-  induction es as [|e r IH]; intro acc; cbn [eh_pipeline]; [discriminate|].
-  pose proof (eh_step_no_panic e) as H. destruct (eh_step e); [apply IH|discriminate|congruence].
+  apply Forall_forall. intros m Hm. apply filter_In in Hm as [_ Hm]. unfold of_rank in Hm.
+  apply Nat.eqb_eq in Hm. exact Hm.
 Qed.
 
-Lemma create_rule_no_panic fixed proxy def r : create_rule fixed proxy def r <> Panic.
+Lemma rank0 m : rank (m_kind m) = 0 -> m_kind m = KAuthn.
+Proof. destruct (m_kind m); simpl; congruence. Qed.
+Lemma rank2 m : rank (m_kind m) = 2 -> m_kind m = KFin.
+Proof. destruct (m_kind m); simpl; congruence. Qed.
+
+Lemma Forall_impl' {A} (P Q : A -> Prop) l : (forall x, P x -> Q x) -> Forall P l -> Forall Q l.
+Proof. intros H HF. eapply Forall_impl; eassumption. Qed.
+
+Lemma spec_default_kinds d e : spec_default d = Some e -> stage_kinds e.
 Proof.
-  unfold create_rule. destruct (proxy && negb (r_backend r)); [discriminate|].
-  pose proof (exec_pipeline_no_panic (r_exec r) empty_pipes) as H1.
-  destruct (exec_pipeline empty_pipes (r_exec r)) as [p| |]; [|discriminate|congruence].
-  pose proof (eh_pipeline_no_panic (r_eh r) []) as H2.
-  destruct (eh_pipeline [] (r_eh r)) as [eh| |]; [|discriminate|congruence].
-  match goal with |- (if is_nil ?x then _ else _) <> _ => destruct (is_nil x) end; [discriminate|].
-  destruct (negb (r_matchers_ok r)); discriminate.
+  unfold spec_default, spec_pipeline.
+  destruct (all_some (map spec_mech (d_exec d))) as [ms|]; [|discriminate].
+  destruct (sortedb _); [|discriminate].
+  pose proof (filter_rank_Forall 0 ms) as H0. pose proof (filter_rank_Forall 1 ms) as H1.
+  pose proof (filter_rank_Forall 2 ms) as H2.
+  destruct (filter (of_rank 0) ms) as [|a a'] eqn:Ha; [discriminate|].
+  destruct (spec_errors (d_eh d)); [|discriminate]. intro H; inversion H; subst e.
+  unfold stage_kinds; simpl. splits; try discriminate.
+  - eapply Forall_impl'; [apply rank0 | exact H0].
+  - exact H1.
+  - eapply Forall_impl'; [apply rank2 | exact H2].
 Qed.
 
-Lemma init_default_no_panic d : init_default d <> Panic.
+Lemma spec_rule_kinds proxy def r e :
+  match def with Some d => stage_kinds d | None => True end ->
+  spec_rule proxy def r = Some e -> stage_kinds e.
 Proof.
-  unfold init_default.
-  pose proof (exec_pipeline_no_panic (d_exec d) empty_pipes) as H1.
-  destruct (exec_pipeline empty_pipes (d_exec d)) as [p| |]; [|discriminate|congruence].
-  pose proof (eh_pipeline_no_panic (d_eh d) []) as H2.
-  destruct (eh_pipeline [] (d_eh d)) as [eh| |]; [|discriminate|congruence].
-  destruct (is_nil (p_a p)); discriminate.
+  intros Hd. unfold spec_rule, spec_pipeline.
+  destruct (proxy && negb (r_backend r)); [discriminate|].
+  destruct (all_some (map spec_mech (r_exec r))) as [ms|]; [|discriminate].
+  destruct (sortedb _); [|discriminate].
+  destruct (spec_errors (r_eh r)); [|discriminate].
+  pose proof (filter_rank_Forall 0 ms) as H0. pose proof (filter_rank_Forall 1 ms) as H1.
+  pose proof (filter_rank_Forall 2 ms) as H2.
+  destruct (inherit (filter (of_rank 0) ms) (dflt def f_sc)) as [|a a'] eqn:Hi; [discriminate|].
+  intro H; inversion H; subst e. unfold stage_kinds; simpl. splits; try discriminate.
+  - rewrite <- Hi. unfold inherit. destruct (filter (of_rank 0) ms).
+    + destruct def as [d|]; simpl; [apply Hd | constructor].
+    + eapply Forall_impl'; [apply rank0 | exact H0].
+  - unfold inherit. destruct (filter (of_rank 1) ms).
+    + destruct def as [d|]; simpl; [apply Hd | constructor].
+    + exact H1.
+  - unfold inherit. destruct (filter (of_rank 2) ms).
+    + destruct def as [d|]; simpl; [apply Hd | constructor].
+    + eapply Forall_impl'; [apply rank2 | exact H2].
 Qed.
 
-Lemma load_rules_no_panic fixed proxy def rs : load_rules fixed proxy def rs <> Panic.
+(** ** The evaluator's predicates *)
+
+Lemma kind_eqb_iff a b : kind_eqb a b = true <-> a = b.
+Proof. destruct a, b; simpl; split; congruence. Qed.
+
+Lemma onat_eqb_iff a b : onat_eqb a b = true <-> a = b.
 Proof.
-  induction rs as [|r rest IH]; cbn [load_rules]; [discriminate|].
-  pose proof (create_rule_no_panic fixed proxy def r) as H.
-  destruct (create_rule fixed proxy def r); [|discriminate|congruence].
-  destruct (load_rules fixed proxy def rest); [discriminate|discriminate|congruence].
+  destruct a as [x|], b as [y|]; simpl; split; try congruence.
+  - intro H. apply Nat.eqb_eq in H. congruence.
+  - intro H. inversion H. apply Nat.eqb_refl.
 Qed.
 
-Lemma loader_total fixed proxy d r rs def :
-  load fixed proxy d r <> FactoryPanic /\ load fixed proxy d r <> Loaded Panic /\
-  load_rules fixed proxy def rs <> Panic.
+Lemma tmech_eqb_iff a b : tmech_eqb a b = true <-> a = b.
 Proof.
-  split; [|split; [|apply load_rules_no_panic]]; unfold load; destruct d as [dd|].
-  - pose proof (init_default_no_panic dd) as H. destruct (init_default dd); congruence || discriminate.
-  - discriminate.
-  - destruct (init_default dd); try discriminate. intro H; inversion H as [H1].
-    exact (create_rule_no_panic _ _ _ _ H1).
-  - intro H; inversion H as [H1]. exact (create_rule_no_panic _ _ _ _ H1).
+  destruct a as [[k1 i1] c1], b as [[k2 i2] c2]. unfold tmech_eqb.
+  rewrite !andb_true_iff, kind_eqb_iff, Nat.eqb_eq, onat_eqb_iff. split.
+  - intros [[-> ->] ->]. reflexivity.
+  - intro H; inversion H. auto.
+Qed.
+
+Lemma bool_eqb_iff a b : Bool.eqb a b = true <-> a = b.
+Proof. destruct a, b; simpl; split; congruence. Qed.
+
+Lemma runr_eqb_iff a b : runr_eqb a b = true <-> a = b.
+Proof.
+  destruct a as [e1 t1], b as [e2 t2]. unfold runr_eqb; simpl.
+  rewrite andb_true_iff, bool_eqb_iff, (list_eqb_spec tmech_eqb tmech_eqb_iff). split.
+  - intros [-> ->]. reflexivity.
+  - intro H; inversion H. auto.
+Qed.
+
+Lemma robs_eqb_iff a b : robs_eqb a b = true <-> a = b.
+Proof.
+  destruct a as [r1 b1], b as [r2 b2]. unfold robs_eqb; simpl.
+  rewrite andb_true_iff, bool_eqb_iff, (list_eqb_spec runr_eqb runr_eqb_iff). split.
+  - intros [-> ->]. reflexivity.
+  - intro H; inversion H. auto.
+Qed.
+
+Lemma kn_eqb_iff a b : kn_eqb a b = true <-> a = b.
+Proof.
+  destruct a as [k1 i1], b as [k2 i2]. unfold kn_eqb; simpl.
+  rewrite andb_true_iff, kind_eqb_iff, Nat.eqb_eq. split.
+  - intros [-> ->]. reflexivity.
+  - intro H; inversion H. auto.
+Qed.
+
+Lemma iobs_eqb_iff a b : iobs_eqb a b = true <-> a = b.
+Proof.
+  destruct a as [a1 a2 a3 a4 a5], b as [b1 b2 b3 b4 b5]. unfold iobs_eqb; simpl.
+  rewrite !andb_true_iff, bool_eqb_iff, !(list_eqb_spec kn_eqb kn_eqb_iff). split.
+  - intros [[[[-> ->] ->] ->] ->]. reflexivity.
+  - intro H; inversion H. auto.
+Qed.
+
+Lemma served_eqb_iff a b : served_eqb a b = true <-> a = b.
+Proof.
+  destruct a as [|x|x], b as [|y|y]; simpl; split; try congruence.
+  - intro H. apply (list_eqb_spec runr_eqb runr_eqb_iff) in H. congruence.
+  - intro H. inversion H. apply (list_eqb_spec runr_eqb runr_eqb_iff). reflexivity.
+  - intro H. apply robs_eqb_iff in H. congruence.
+  - intro H. inversion H. apply robs_eqb_iff. reflexivity.
+Qed.
+
+Section EvalRule.
+  Context {O : Type} (obs_of : effective -> O) (eqb : O -> O -> bool).
+  Hypothesis eqb_iff : forall x y, eqb x y = true <-> x = y.
+
+  (** T_main of the verdict protocol: an implementation that shows what the
+      model shows satisfies the property's predicate — for every input, no guard *)
+  Theorem corr_implies_prop proxy d r :
+    prop_rule obs_of eqb proxy d r (map_load obs_of (load proxy d r)) = true.
+  Proof.
+    unfold load, with_default, prop_rule. destruct d as [dd|]; simpl.
+    - pose proof (init_default_no_panic dd) as Hnp.
+      destruct (init_default dd) as [de| |] eqn:Hd; simpl; [|reflexivity|congruence].
+      pose proof (create_rule_no_panic proxy (Some de) r) as Hnp2.
+      destruct (create_rule proxy (Some de) r) as [e| |] eqn:Hr; simpl; [|reflexivity|congruence].
+      destruct (forallb scoped_step (d_exec dd)) eqn:Hsd; simpl; [|reflexivity].
+      destruct (scoped_rule r) eqn:Hsr; [|reflexivity].
+      rewrite (init_default_spec _ Hsd) in Hd. destruct (spec_default dd) as [de'|]; [|discriminate].
+      inversion Hd; subst de'. rewrite (create_rule_spec _ _ _ Hsr) in Hr.
+      destruct (r_matchers_ok r); [|discriminate]. destruct (spec_rule proxy (Some de) r); [|discriminate].
+      inversion Hr; subst. apply eqb_iff. reflexivity.
+    - pose proof (create_rule_no_panic proxy None r) as Hnp2.
+      destruct (create_rule proxy None r) as [e| |] eqn:Hr; simpl; [|reflexivity|congruence].
+      destruct (scoped_rule r) eqn:Hsr; [|reflexivity].
+      rewrite (create_rule_spec _ _ _ Hsr) in Hr.
+      destruct (r_matchers_ok r); [|discriminate]. destruct (spec_rule proxy None r); [|discriminate].
+      inversion Hr; subst. apply eqb_iff. reflexivity.
+  Qed.
+
+  (** what the predicate means when it holds for a loaded rule *)
+  Theorem prop_rule_sound proxy d r x def :
+    prop_rule obs_of eqb proxy d r (Loaded (Ok x)) = true ->
+    scoped_default d = true -> scoped_rule r = true -> spec_default_opt d = Some def ->
+    exists e, spec_rule proxy def r = Some e /\ x = obs_of e.
+  Proof.
+    unfold prop_rule. intros H H1 H2 H3. rewrite H1, H2, H3 in H. simpl in H.
+    destruct (spec_rule proxy def r) as [e|]; [|discriminate].
+    exists e. split; [reflexivity|]. apply eqb_iff in H. congruence.
+  Qed.
+
+  (** a panic, or a loaded rule the specification rejects, violates it *)
+  Theorem prop_rule_rejects proxy d r x def :
+    scoped_default d = true -> scoped_rule r = true -> spec_default_opt d = Some def ->
+    spec_rule proxy def r = None ->
+    prop_rule obs_of eqb proxy d r (Loaded (Ok x)) = false.
+  Proof. unfold prop_rule. intros H1 H2 H3 H4. rewrite H1, H2, H3, H4. reflexivity. Qed.
+End EvalRule.
+
+Lemma list_eqb_refl {A} (eqb : A -> A -> bool) (H : forall x y, eqb x y = true <-> x = y) l :
+  list_eqb eqb l l = true.
+Proof. apply (list_eqb_spec eqb H). reflexivity. Qed.
+
+Lemma old_rules_spec proxy def k : old_rules proxy def k = spec_old proxy def k.
+Proof.
+  unfold old_rules, spec_old. rewrite create_rule_spec by reflexivity. simpl.
+  destruct (spec_rule proxy def old_rule_def); reflexivity.
+Qed.
+
+Section EvalSet.
+  Variable holds : nat -> nat -> bool.
+
+  Theorem corr_implies_prop_set proxy d k sd :
+    prop_set holds proxy d k sd (run_set holds proxy d k sd) = true.
+  Proof.
+    assert (Hgo : forall def, spec_default_opt d = Some def -> scoped_default d = true ->
+              prop_set holds proxy d k sd
+                (SDone (is_ok (load_ruleset proxy def sd))
+                   (map (lookup holds def (after (old_rules proxy def k) (load_ruleset proxy def sd))) paths)) = true).
+    { intros def Hdef Hsd. unfold prop_set. rewrite Hsd, Hdef. cbn [andb].
+      destruct (forallb scoped_rule (sd_rules sd)) eqn:Hsr; [|reflexivity].
+      rewrite (load_ruleset_spec _ _ _ Hsr).
+      destruct (forallb parse_ok (sd_rules sd) && sd_version_ok sd).
+      - destruct (spec_rules proxy def (sd_rules sd)) as [es|]; cbn [of_opt is_ok after].
+        + apply (list_eqb_refl _ served_eqb_iff).
+        + rewrite old_rules_spec. apply (list_eqb_refl _ served_eqb_iff).
+      - cbn [is_ok after]. rewrite old_rules_spec. apply (list_eqb_refl _ served_eqb_iff). }
+    unfold run_set, with_default. destruct d as [dd|].
+    - pose proof (init_default_no_panic dd) as Hnp.
+      destruct (init_default dd) as [de| |] eqn:Hd; [|reflexivity|congruence].
+      destruct (scoped_default (Some dd)) eqn:Hsd.
+      + apply Hgo; [|reflexivity]. simpl in Hsd. rewrite (init_default_spec _ Hsd) in Hd.
+        simpl. destruct (spec_default dd); [|discriminate]. inversion Hd. reflexivity.
+      + unfold prop_set. rewrite Hsd. reflexivity.
+    - apply Hgo; reflexivity.
+  Qed.
+
+  Theorem prop_set_sound_accepted proxy d k sd sv def :
+    prop_set holds proxy d k sd (SDone true sv) = true ->
+    scoped_default d = true -> forallb scoped_rule (sd_rules sd) = true -> spec_default_opt d = Some def ->
+    exists es, spec_rules proxy def (sd_rules sd) = Some es /\ sv = map (lookup holds def es) paths.
+  Proof.
+    unfold prop_set. intros H H1 H2 H3. rewrite H1, H2, H3 in H. cbn [andb] in H.
+    destruct (spec_rules proxy def (sd_rules sd)) as [es|]; [|discriminate].
+    exists es. split; [reflexivity|]. apply (list_eqb_spec _ served_eqb_iff) in H. congruence.
+  Qed.
+
+  Theorem prop_set_sound_rejected proxy d k sd sv def :
+    prop_set holds proxy d k sd (SDone false sv) = true ->
+    scoped_default d = true -> forallb scoped_rule (sd_rules sd) = true -> spec_default_opt d = Some def ->
+    sv = map (lookup holds def (spec_old proxy def k)) paths.
+  Proof.
+    unfold prop_set. intros H H1 H2 H3. rewrite H1, H2, H3 in H. cbn [andb] in H.
+    apply (list_eqb_spec _ served_eqb_iff) in H. congruence.
+  Qed.
+End EvalSet.
+
+Corollary pipeline_language_triple sts :
+  exec_pipeline empty_pipes sts =
+  match model_pipeline sts with
+  | Some (a, h, f) => Ok {| p_a := a; p_h := h; p_f := f |}
+  | None => Rejected
+  end.
+Proof. rewrite pipeline_language. destruct (model_pipeline sts) as [[[a h] f]|]; reflexivity. Qed.
+
+(** ** History: finding C14-F1 (repaired by fix: commit 97aaffa) *)
+
+(** the factory of the pinned commit ignored a rule's own backtracking_enabled
+    when no default rule is configured; kept only to document the finding *)
+Definition create_rule_pinned (proxy : bool) (def : option effective) (r : rule_def) : res effective :=
+  match def, create_rule proxy def r with
+  | None, Ok e => Ok {| f_sc := f_sc e; f_sh := f_sh e; f_fi := f_fi e; f_eh := f_eh e; f_bt := false |}
+  | _, x => x
+  end.
+
+
+Lemma F1_pinned_refuted :
+  exists r eff, scoped_rule r = true /\ r_bt r = Some true /\
+    create_rule_pinned false None r = Ok eff /\ spec_rule false None r <> Some eff.
+Proof.
+  exists {| r_exec := [ {| s_authn := Some {| k_id := Some 0; k_ok := true |}; s_authz := None; s_ctx := None;
+                           s_fin := None; s_if := CondNil; s_cfg := CfgNil |} ];
+            r_eh := []; r_bt := Some true; r_backend := false; r_matchers_ok := true |}.
+  eexists. split; [reflexivity|]. split; [reflexivity|]. split; [vm_compute; reflexivity|].
+  vm_compute. discriminate.
 Qed.
